@@ -68,6 +68,10 @@ def IsoDateTime.asNanoseconds (dt : IsoDateTime) : Out Int :=
   let ns := toUncheckedEpochNanoseconds dt.date dt.time
   if isValidEpochNanos ns then .ok ns else .err .range
 
+/-- `IsoDateTime::utc_epoch_nanoseconds`: `GetUTCEpochNanoseconds` as the difference and rounding operations use it, a
+    plain number (no instant range check). Kept in `Out` so that the call sites read as in the code. -/
+def IsoDateTime.utcEpochNs (dt : IsoDateTime) : Out Int := .ok (toUncheckedEpochNanoseconds dt.date dt.time)
+
 /-- `is_valid_iso_day` / `is_valid_date` (month checked first). -/
 def isValidDate (year month day : Int) : Out Bool :=
   if ¬ (1 ≤ month ∧ month ≤ 12) then .ok false else do
